@@ -39,6 +39,20 @@ class P(DockProp):
             c.set_records(rng, rng.randint(1, 4), T0, 3 * S)
         bad = {"k": "raw", "text": rng.choice(self.BADSTAGES), "coq": "EInvalid"}        # Run/Dock.v: a stage that pipeline construction rejects
         sel = [self.eqv("tier", rng.choice(["a", "b"]))] if rng.random() < 0.5 else [dgen.matcher(rng, ctrs, "container_name")]
+        if rng.random() < 0.3:
+            # a set operation with a PARENTHESISED scalar operand: the parser lets it through (it looks at the bare literal only), building the
+            # operation fails after the other operand's readers were opened: an error, and they are closed (D38)
+            ok = m.mrange("count_over_time", sel, [m.g.st_dropkeep("drop", ["msg"], [])], S)
+            lit = {"k": "lit", "v": 1.0, "toks": rng.choice([["(", "1", ")"], ["(", "(", "2", ")", ")"]]), "coq": "MLit %s" % mgen.cfloat(1)}
+            op = rng.choice(["and", "or", "unless"])
+            e = m.mbin(op, ok, lit) if rng.random() < 0.5 else m.mbin(op, lit, ok)
+            ids = [c.id for c in dgen.selected(ctrs, sel)]
+            step, st = rng.choice([(0, end), (S, start)])
+            evals = [{"q": b64e(m.text(e)), "qcoq": "DQMetric (%s)" % e["coq"], "limit": 0, "start": st, "end": end, "step": step, "release": rel,
+                      "exp_selected": ids, "exp_opts": {}, "must_err": True, "must_ok": False} for rel in (list(range(nc)), list(reversed(range(nc))))]
+            return {"kind": "scalar-in-set-operation", "ctrs": [c.json() for c in ctrs], "ctrs_coq": clist(c.coq() for c in ctrs), "ctrs_intended_coq": clist(c.coq(False) for c in ctrs),
+                    "list_fail": False, "oracle": oracles_coq(), "evals": evals, "same": [], "faults": ["scalar-operand"],
+                    "summary": ["%s recs=%d labels=%s" % (c.id, len(c.recs), c.labels) for c in ctrs], "note": "parenthesised scalar under %s" % op}
         shape = rng.choice(["log", "range", "binright", "binleft"])
         sels = [sel]
         if shape == "log":
